@@ -52,6 +52,48 @@ CHECKS["C16"] = dict(
     note=_IF_NOTE, technique="TLA+ model checking + exhaustive bounded-history replay under synctest + TLC trace validation",
     design_ref="DESIGN.md §3.5, §4 C16")
 
+CHECKS["C19"] = dict(
+    level="exploration",
+    text="Tables.tla transcribes the protocol tables and the per-version capability matrix from specs/*.spec; TLC checks its "
+         "self-consistency ASSUMEs and emits it. The harness lists every declared constant from primitive/constants.go with go/ast "
+         "and evaluates every exported validity / classification / capability predicate over the complete 8- and 16-bit domains "
+         "(32-bit: 0..65535, declared +-1, single bits, seeded random) and all 256 version bytes x feature arguments, comparing with "
+         "the declared set and with the TLA+ tables. Exhaustive over the small domains; pure functions, so no state exploration.",
+    note="Trusted: the transcription in Tables.tla (ambiguities commented there); the hand-kept list of predicates in harness/c19.go.",
+    technique="TLA+ tables (ASSUME-checked by TLC) + exhaustive-domain evaluation of the real predicates",
+    design_ref="DESIGN.md §3.1, §4 C19")
+CHECKS["C06"] = dict(
+    level="exploration",
+    text="Segment.tla defines the v5 segment layout (bit-packed little-endian headers, CRC-24, seeded CRC-32, raw fallback) as TLA+ "
+         "operators; TLC computes byte-exact vectors (SegmentVec.tla) that the real encoder must reproduce and the real decoder must "
+         "accept, and validates segments recorded from the real codec (SegmentTrace.tla). A sweep over payload lengths 0..131071 "
+         "(all of them in the thorough tier) x contents x flag x {none, LZ4} checks round trip, header fields and both CRCs against "
+         "a bit-serial reference that is re-anchored to the TLC vectors on every run.",
+    note="Trusted: Segment.tla's reading of native_protocol_v5.spec §2 (raw fallback = uncompressed-length 0); refwire (anchored to TLC "
+         "each run); the LZ4 library's UncompressBlock to open transmitted blocks. Known finding: dependency pierrec/lz4 v4.0.3.",
+    technique="TLA+ layout operators evaluated by TLC (vectors + trace validation) + exhaustive length sweep on the real codec",
+    design_ref="DESIGN.md §3.4, §4 C06")
+CHECKS["C07"] = dict(
+    level="fault_enumeration",
+    text="SegmentCorrupt.tla: TLC proves by enumeration that every error pattern of weight <= 2 (quick) / 3 (thorough) over "
+         "header+CRC-24 has a non-zero syndrome for both header formats, checks the affinity lemma the larger enumeration rests on, "
+         "and emits corruption descriptors with prescribed verdicts. The harness applies them to real segments and the real decoder, "
+         "then enumerates all header patterns of weight 1..4 directly and weights 5..7 via syndromes of the real CRC function "
+         "(8.8e7 patterns for the 3-byte header; 7.1e8 for the 5-byte header in thorough), plus payload single flips, all pairs on "
+         "small payloads and bursts up to 32 bits at every offset.",
+    note="Trusted: affinity of the CRC-24 (TLC lemma + brute force on the real function); burst interiors are sampled (5 per offset/length).",
+    technique="TLA+ corruption model checked by TLC + exhaustive fault enumeration on the real decoder",
+    design_ref="DESIGN.md §3.4, §4 C07")
+CHECKS["C08"] = dict(
+    level="exploration",
+    text="CompressLattice.tla states the assumption Decompress(Compress(x)) = x that the stream specifications rely on and enumerates "
+         "the lattice algorithm x format x size class x content class; the harness materialises every point (seeded) and runs the "
+         "real compressors and the frame/segment codecs with and without compression. TLA+ cannot say anything about LZ4/Snappy "
+         "internals, so this is exploration of a structured input space, not model checking.",
+    note="Trusted: nothing beyond the Go toolchain; known finding: the pinned pierrec/lz4 v4.0.3 corrupts some blocks > 64 KiB.",
+    technique="TLA+-enumerated input lattice + round trip through the real compressors",
+    design_ref="DESIGN.md §4 C08")
+
 NOT_YET = {}
 
 
